@@ -31,6 +31,7 @@ type Opts struct {
 	Special bool // allow the special 2D profile leaves (cams, flange, rack, spiral, threads, text)
 	NoPoly  bool // no polygon leaves
 	NoBlend bool // no PolyMin/PolyMax blends
+	Bezier  bool // allow Bezier-outlined leaves (their construction consumes the library-private random source)
 	NoText  bool // no text leaves
 	// SolidUnion2: operands of a 2D union are drawn without difference / intersection / cut, so that no
 	// operand can be empty (excludes the known finding Union2D:pruned-value-overestimates by construction)
@@ -198,7 +199,21 @@ func (x *gen) special2() *Node {
 	if !x.o.NoText {
 		kinds = append(kinds, "text")
 	}
+	if x.o.Bezier {
+		kinds = append(kinds, "bezier", "bezier")
+	}
 	switch x.pick("special", kinds) {
+	case "bezier":
+		n := x.intr("bzn", 3, 7)
+		r0 := x.length("bzr", 0.3, 1)
+		var vs [][2]float64
+		for i := 0; i < n; i++ {
+			a0 := 2 * math.Pi * float64(i) / float64(n)
+			a1 := 2 * math.Pi * (float64(i) + 0.5) / float64(n)
+			ra, rb := r0*(0.6+0.4*x.unit("bza")), r0*(0.7+0.6*x.unit("bzb"))
+			vs = append(vs, [2]float64{ra * math.Cos(a0), ra * math.Sin(a0)}, [2]float64{rb * math.Cos(a1), rb * math.Sin(a1)})
+		}
+		return &Node{Op: "bezier", V: vs}
 	case "flatflankcam":
 		base := x.length("base", 0.2, 1)
 		nose := base * (0.1 + 0.85*x.unit("nose"))
